@@ -629,9 +629,10 @@ fn emit(out: &mut Out, id: u64, c: &Cfg, fam: &str, stream: &str, thorough: bool
             // nu-SVC: the margin multiplier r is zero up to rounding (or infinite): the data is not separable at level nu
             let kmax0 = kmat.iter().flatten().fold(0.0f64, |m, a| m.max(a.abs()));
             if c.kind == Kind::NuSvc && !(r > 1e-9 * (c.kappa + kmax0) && r.is_finite()) { tags.push("nusvc_margin_zero".into()); out.bump("nusvc_margin_zero"); }
-            // nu-SVC, non-linear kernel: the solver selects the stored support vectors by |alpha_i| > 100 eps_machine BEFORE the
-            // coefficients are divided by r, weighted_sum filters the published alpha_i / r by the same absolute threshold:
-            // the class in which the two selections differ for some sample (decidable from the published alpha and r)
+            // nu-SVC, non-linear kernel: the solver selects support vectors by |alpha_i| > 100 eps_machine BEFORE the coefficients
+            // are divided by r, weighted_sum filters the published alpha_i / r by the same absolute threshold; since the repair
+            // 4625418 (finding F-C13-S1) fit_nu re-selects the stored vectors after the division.  The class in which the two
+            // selections differ for some sample (decidable from the published alpha and r) stays tagged and counted
             else if c.kind == Kind::NuSvc && c.ker != Ker::Linear {
                 let thr = 100.0 * f64::EPSILON;
                 if f.m.alpha.iter().any(|a| (a.abs() > thr) != ((a * r).abs() > thr)) {
@@ -646,10 +647,7 @@ fn emit(out: &mut Out, id: u64, c: &Cfg, fam: &str, stream: &str, thorough: bool
             let is_panic = e.starts_with("PANIC");
             out.bump(if is_panic { "outcome_panic" } else if e.starts_with("TIMEOUT") { "outcome_timeout" } else { "outcome_error" });
             out.rust_fail(id, 512, &tagrefs, &format!("fit did not produce a model: {}", e), &desc);
-            if is_panic && has_targets && c.lay_y >= 2 {
-                // the fit reads its targets through `as_slice().unwrap()`: nothing of the solver ran
-                out.rust_eval(&desc, None);
-            } else if is_panic && replay_ok {
+            if is_panic && replay_ok {
                 // the model of the solver must panic as well
                 let coq = format!("{}c_replay := true; {}c_panic := true; c_alpha := []; c_rho := 0%float; c_r := None; c_obj := 0%float; c_iter := {}; c_w := []; c_sv := []; c_nsupport := 0%N; {}c_ws := []; c_dec := []; c_lab := []; c_pr := []; c_tolk := 0%float; c_toleq := 0%float; c_told := 0%float; c_tolpsd := 0%float; c_tws := []; c_tout := []; c_tlab := []; c_L := [] |}}",
                     head, kpart, cn(40 * n as u64 + 2000), qpart);
